@@ -56,7 +56,7 @@ def step (s : St) (ws : List String) : St × String :=
       match (List.range k).mapM (fun j => key? s.w s!"n{j}") with
       | some sks =>
         if k = 0 then (s, "bad-op") else
-        ({ s with nd := some { pks := sks.map pubKey, threshold := (k * 66 + 99) / 100, blocks := [], store := [], roundNotarized := [] },
+        ({ s with nd := some { pks := sks.map pubKey, threshold := (k * 66 + 99) / 100, blocks := [], store := [], roundNotarized := [], complete := false },
                   names := [], gens := [], attached := [] }, "ok")
       | none => (s, "bad-op")
     | none => (s, "bad-op")
